@@ -105,7 +105,7 @@ def project(weights,
 
   if normalization_order:
     norm = tf.norm(weights, axis=0, ord=normalization_order)
-    norm = tf.where(norm < _NORMALIZATION_EPS, 1.0, norm)
+    norm = tf.where(norm < _NORMALIZATION_EPS, tf.ones_like(norm), norm)
     weights = weights / norm
 
   return weights
